@@ -193,6 +193,24 @@ def path_map_field(ctx: Ctx) -> str:
     c = _cache(ctx)
     if "path_map_field" not in c:
         fs = [k for k, a in _record_fields(ctx, "dds.structures.EvalContext").items() if "DDSPath" in a and "PyHash" in a]
+        if len(fs) > 1:
+            # several path -> signature maps: the path map is the one filled from the collection of the kept paths (all_store_paths)
+            api = ctx.prog.modules.get("dds._api")
+            from ..flow import flow_of
+            hit = []
+            for f in [g for g in ctx.prog.funcs.values() if g.module is api]:
+                fl = flow_of(ctx.prog, f)
+                for n in f.own_nodes():
+                    if isinstance(n, ast.Call):
+                        for k in n.keywords:
+                            if k.arg in fs:
+                                exprs = [k.value]
+                                if isinstance(k.value, ast.Name):
+                                    exprs = [d.value for d in fl.root_defs(k.value) if d.value is not None] or exprs
+                                if any(isinstance(x, ast.Call) and unparse(x.func).endswith("all_store_paths") for e in exprs for x in ast.walk(e)):
+                                    hit.append(k.arg)
+            if hit:
+                fs = sorted(set(hit))
         if len(fs) != 1:
             raise AnchorError("role path-map field of dds.structures.EvalContext (annotated Dict[DDSPath, PyHash]) not found")
         c["path_map_field"] = fs[0]
